@@ -177,6 +177,11 @@ def step(res, sim, m, rq, fail):
             if boot != [(0x700 + m.nid, b"\x00")]:
                 return fail("reset/bootup-id", "after reset communication the boot-up frames are %r, reference id %x (stored configuration %r, old node id %d)" % (
                     [("%x" % c, d.hex()) for c, d in boot], 0x700 + m.nid, m.store, old_nid)), False
+            if m.store and m.store[0]:
+                # a stored bit rate is the bit rate the CAN controller runs with after the reset
+                en = [int(e[2]) for e in evs if e[:2] == ["drv", "can_enable"]]
+                if not en or en[-1] != m.baud:
+                    return fail("reset/bitrate-not-applied", "stored bit rate %d: the CAN driver was enabled with %r during reset communication" % (m.baud, en)), False
             st = sim.state()
             if int(st["nodeid"]) != m.nid or int(st["baud"]) != m.baud:
                 return fail("reset/active-config", "active node id %s / bit rate %s, reference %d / %d" % (st["nodeid"], st["baud"], m.nid, m.baud)), False
